@@ -1,6 +1,7 @@
 package props
 
 import (
+	liqV2types "github.com/comdex-official/comdex/x/liquidationsV2/types"
 	"fmt"
 	"sort"
 	"testing"
@@ -31,6 +32,8 @@ func lendView(e *c08Env) *cdpU {
 	return u
 }
 
+var dbgLendBid func(string)
+
 // c10LendRun: Dutch auctions of seized borrows (non-zero auction bonus, proceeds returned to the lending pool).
 func c10LendRun(t *testing.T, rec *ev.Rec, run int) {
 	variant := ev.ShardNo()*3 + run
@@ -46,7 +49,18 @@ func c10LendRun(t *testing.T, rec *ev.Rec, run int) {
 		mon.Observe(last, post, ev)
 		last = post
 	}
-	steps := ev.Pick(900, 5000)
+	// the app's reserve fund (auctions draw on it when the collateral does not cover the target): large in two
+	// variants out of three, small in the third, so that both "covers the shortage" and "cannot cover it" occur
+	for _, id := range e.u.Order {
+		amt := sdk.NewInt(200_000_000_000)
+		if variant%3 == 2 {
+			amt = sdk.NewInt(50_000)
+		}
+		msg := &liqV2types.MsgAppReserveFundsRequest{From: c.Accts[5].Addr.String(), AppId: e.u.App, AssetId: id, TokenQuantity: sdk.NewCoin(e.u.Assets[id].Denom, amt)}
+		res := c.Deliver(c.Accts[5], msg)
+		observe(&cdpEvent{Kind: "tx", Op: "reserve_fund", Signer: c.Accts[5], Msg: msg, Res: res, Desc: fmt.Sprintf("%s%s", amt, e.u.Assets[id].Denom)})
+	}
+	steps := ev.Pick(3000, 20000)
 	for i := 0; i < steps && !e.panicked; i++ {
 		x := e.rnd.Intn(100)
 		switch {
@@ -114,6 +128,15 @@ func c10LendRun(t *testing.T, rec *ev.Rec, run int) {
 			rec.Count("op_bid_market_v2_lend_attempted", 1)
 			if res.OK() {
 				rec.Count("op_bid_market_v2_lend_ok", 1)
+			} else {
+				l := res.Log
+				if len(l) > 90 {
+					l = l[len(l)-90:]
+				}
+				rec.Count("lend_bid_rejected: "+l, 1)
+				if dbgLendBid != nil {
+					dbgLendBid(res.Log)
+				}
 			}
 			observe(&cdpEvent{Kind: "tx", Op: "bid_market_v2", Signer: bidder, Msg: msg, Res: res, Desc: fmt.Sprintf("auction=%d amt=%s rem=%s", a.AuctionId, amt, rem)})
 		}
